@@ -16,16 +16,16 @@ CLAIMS = {
              text="for the schemes with rational nodes (radau d=1,2; legendre d=1) TLC predicts every collocation, algebraic and continuity residual, the samples on control / integrator / integrator_roots grids and the interpolated algebraic values exactly, for ODE and index-1 DAE right-hand sides x N x M x grids x horizon kinds; the coefficient matrices are derived in TLA+ from tau by Lagrange interpolation, independently of CasADi",
              ref="DESIGN.md section 4 C02"),
  'C06': dict(tech="TLC model checking of MC_Grids.tla (emitted rows <=> declared partition within bounds) + TLC-enumerated grid scenarios replayed into rockit",
-             text="MC_Grids checks on the specification that the rows of every grid class/formulation hold exactly for the declared partition within min/max, for all N<=3/4 and a rational neighbourhood of grid-variable assignments (and that the old deviations break this); the scenario family replays grid class x localize_t0/localize_T/FreeGrid x bound x perturbed grid variable x horizon kind x method and compares time vectors, t/DT/DT_control samples and the feasibility verdict of the NLP's grid rows with the declarative verdict",
+             text="MC_Grids checks on the specification that the rows of every grid class/formulation hold exactly for the declared partition within min/max, for all N<=3/4 and a rational neighbourhood of grid-variable assignments (and that the old deviations break this); the scenario family replays grid class x localize_t0/localize_T/FreeGrid x bound x perturbed grid variable x horizon kind x method (MS, SS and a slice of DirectCollocation) and compares time vectors, t/DT/DT_control samples and the feasibility verdict of the NLP's grid rows with the declarative verdict; DensityGrid / DenseEdgesGrid node positions observed on real grid objects are validated by TLC (TraceDensity.tla) against the declarative equidistribution",
              ref="DESIGN.md section 4 C06"),
  'C03': dict(tech="TLC model checking of MC_Order.tla (orders of the specified schemes as exact algebra) + TLC-computed exact flows replayed against discrete_system / sys_simulator",
-             text="PARTIAL. MC_Order checks on the specification that rk reproduces the degree-4 Taylor polynomial on x'=lambda x and has quadrature error ratio 16, expl_euler degree 1 / ratio 2, and that the collocation steps obtained by solving the specification's own collocation rows (radau d=1,2; legendre d=1) match exp(z) through order 2d-1 / 2d with weights exact to the matching degree; C01/C02 bind those schemes to the code. On exactly solvable families (polynomial in t, lower-triangular in the states) TLC computes the exact flow and integral; ocp.discrete_system must equal the scheme values exactly, approach the exact flow at rate 2^p on the finest M pair, the CasADi integrators (cvodes, collocation) and ocp.sys_simulator must be within 1e-4 of the exact flow",
+             text="PARTIAL. MC_Order checks on the specification that rk reproduces the degree-4 Taylor polynomial on x'=lambda x and has quadrature error ratio 16, expl_euler degree 1 / ratio 2, and that the collocation steps obtained by solving the specification's own collocation rows (radau d=1,2; legendre d=1) match exp(z) through order 2d-1 / 2d with weights exact to the matching degree; C01/C02 bind those schemes to the code. On exactly solvable families (polynomial in t, lower-triangular in the states) TLC computes the exact flow and integral; ocp.discrete_system must equal the scheme values exactly, approach the exact flow at rate 2^p on the finest M pair, the CasADi integrators (cvodes, collocation; idas on an exactly solvable index-1 DAE) and ocp.sys_simulator must be within 1e-4 of the exact flow; DirectCollocation (radau/legendre) must reproduce the polynomial flows exactly with 4 points on uniform and geometric grids, also after a horizon edit, and converge at order 3 / 4 with 2 points",
              ref="DESIGN.md section 4 C03 and section 5"),
  'C04': dict(tech="TLA+ spec (Nlp placement: DeclaredPoints vs EmittedPoints checked by TLC) + TLC-enumerated scenarios replayed into rockit",
-             text="TLC checks that the loop-shaped placement equals the declared placement for every catalogue constraint and predicts the bag of slacks of every declared instance; the real NLP rows are grouped by declaring call (metadata carried through Opti) and compared as bags, and every untagged row must be a dynamics row or a pure horizon/grid row",
+             text="TLC checks that the loop-shaped placement equals the declared placement for every catalogue constraint and predicts the bag of slacks of every declared instance; the real NLP rows are grouped by declaring call (metadata carried through Opti) and compared as bags, and every untagged row must be a dynamics row or a pure horizon/grid row; multi-stage histories (constraints added to a sub-stage after a transcription), cross-stage point constraints declared on either stage, vector double inequalities with infinite entries, offsets of magnitude >= 2, and SplineMethod (include_first/include_last next to a next() constraint, boundary constraints) are part of the check",
              ref="DESIGN.md section 4 C04"),
  'C05': dict(tech="TLA+ spec (Nlp objective) evaluated by TLC; scenarios replayed into rockit",
-             text="exact prediction of the NLP objective for every subset of the objective-term catalogue x methods x grids x M, compared with opti.f at generic probes",
+             text="exact prediction of the NLP objective for every subset of the objective-term catalogue x methods x grids x M, compared with opti.f at generic probes; also: collocation quadrature (degrees 1..5), integral through the CasADi integrators on exactly solvable families, objective terms added to a sub-stage after a transcription, lifecycle histories, and SplineMethod (Mayer + node sum + integral(grid='control') + integral by its Milne rule)",
              ref="DESIGN.md section 4 C05"),
  'C07': dict(tech="TLA+ spec (Nlp!EvalW at every grid point; matrix-valued reads) evaluated by TLC; scenarios replayed into rockit, numeric read-back through OcpSolution on a stand-in solver result",
              text="for scalar, column, row and 2x2 matrix expressions over vector/matrix states and parameters, on grids control / control- / integrator / integrator_roots and value(), TLC predicts every entry [i,r,c]; the harness compares symbolic ocp.sample/ocp.value at generic probes and numeric sol.sample/sol.value (OcpSolution fed with an evaluator at an arbitrary decision vector, so read-back is exercised away from optima), including array shapes",
